@@ -27,12 +27,18 @@ ASSUMPTIONS = [
     "the reference environment is the live function table plus true/false on the logic pathway",
 ]
 MIN_NONTRIVIAL_FRACTION = 0.2
+RULE += " Added after the seeded rounds: " + 'Cases may carry `pre` (expressions evaluated first by fresh engines: module-level caches); string literals include runs of blanks, tabs, NBSP and other Unicode spaces.'
 
 _int = st.one_of(st.integers(-9, 12), st.integers(-50, 50)).map(lambda n: str(n) if n >= 0 else "(%d)" % n)
 _float = st.sampled_from(["0.5", "2.567", "1.5", "0.0", "3.25", "1e3", "(-0.5)", "2.5"])
 _bool = st.sampled_from(["True", "False"])
-_strlit = st.sampled_from(["'abc'", "'True'", "'False'", "'a and b'", "' or '", "'x < y'", "\"it's\"", "''", "'not true'", "'ff'", "'12'", "' 7 '", "'3.5'", "'false'",
+_strlit_fixed = st.sampled_from(["'abc'", "'True'", "'False'", "'a and b'", "' or '", "'x < y'", "\"it's\"", "''", "'not true'", "'ff'", "'12'", "' 7 '", "'3.5'", "'false'",
                            "'a  b'", "'tab\there'", "'nb\u00a0sp'", "'  lead'", "'trail   '", "'x\u2003y'", "'1 +  1'", "'(1,2)'", "'#c'"])
+# string contents are data: any Unicode text (lookalike operator glyphs, typographic quotes, full-width digits, zero-width characters) must come back unchanged
+_GLYPHS = "\u00d7\u00f7\u2212\u2264\u2265\u2260\u201c\u201d\u2018\u2019\uff08\uff09\uff0c\uff11\uff12\u00b2\uff58\u200b\u2044\u2217\u00ac\u2227\u2228 ab1<"
+_strlit = st.one_of(_strlit_fixed, _strlit_fixed,
+                    st.text(alphabet=_GLYPHS, min_size=1, max_size=5).map(repr),
+                    st.text(alphabet=st.characters(blacklist_categories=["Cs"]), max_size=5).map(repr))
 _const = st.sampled_from(["pi", "e", "tau", "inf"])
 ARITH = ["+", "-", "*", "/", "//", "%", "**"]
 CMP = ["==", "!=", "<", "<=", ">", ">="]
